@@ -2,6 +2,7 @@ package main
 
 import (
 	"fmt"
+	"math/rand"
 	"strings"
 )
 
@@ -417,4 +418,30 @@ func amplifierHistories() []History {
 		}
 	}
 	return out
+}
+
+// opAmplifier adds one amplifier of random family, level, branching and fault to the set, so that
+// the chains also meet the other modules and mutations of a history.
+func opAmplifier(r *rand.Rand, fs *[]*mfile) string {
+	a := amplifiers[r.Intn(len(amplifiers))]
+	b := 2 + r.Intn(2)
+	k := 8 + r.Intn(40)
+	if a.maxPow > 0 {
+		for pow(b, k) > a.maxPow/4 {
+			k--
+		}
+	}
+	f := a.faults[r.Intn(len(a.faults))]
+	names, texts := a.gen(k, b, f)
+	for i := range names {
+		nf := &mfile{Name: names[i], Raw: texts[i]}
+		if tops, ok := parseTree(texts[i], names[i]); ok && r.Intn(2) == 0 {
+			nf = &mfile{Name: names[i], Tops: tops} // open to the other operators
+		}
+		*fs = append(*fs, nf)
+	}
+	if f == "" {
+		f = "clean"
+	}
+	return fmt.Sprintf("amplifier %q k=%d b=%d %s", a.name, k, b, f)
 }
